@@ -83,6 +83,18 @@ CLAIMED["C01"] = dict(
          "dimension is symbolic per query; shapes and lengths are grid parameters (data <= 9 bytes per leaf, <= 3 top-level "
          "AVPs, depth <= 4). Typed command classes are covered by C09 with the same oracle.")
 
+CLAIMED["C09"] = dict(
+    level="model_checking", technique=E1, design="6/C09",
+    text="For every typed command class found under bromelia.lib the real constructor is executed with a window of its "
+         "arguments made symbolic: presence of each argument is a solver boolean (all subsets in one path tree) and each "
+         "present argument gets a symbolic in-domain value from the AVP value generator; the built message must have the "
+         "command code / Application-ID / R flag of the vendored reference table, P iff the Application-ID is non-zero, each "
+         "settable mandatory AVP exactly once, AVPs in declared order with extras last, each argument carried by its "
+         "dictionary class, and dump() equal to the reference encoding; omitted mandatory arguments must raise a library "
+         "error; a native sweep covers pairing, None-rejection and decode round trips for all classes.",
+    note="Trusted: CrossHair, z3, ref/commands.json, reference encoder, frozen AVP dictionary. Bound: windows of <=3 (quick) / 5 "
+         "arguments per query (quick: one rotating window per class), leaf lengths 1..4, Grouped depth 3.")
+
 PENDING_REASON = "check not built yet in this session (planned in DESIGN.md section 6); no claim is made"
 NOT_APPLICABLE = {}
 
